@@ -99,7 +99,15 @@ pub fn evaluate(h: &Hist) -> Vec<CheckEval> {
                     },
                     None => (ParamsView::default(), statics.clone()),
                 };
-                let inp = inputs_of(&h.log, &seg, &apps, params, poll);
+                let mut inp = inputs_of(&h.log, &seg, &apps, params, poll);
+                // a junk service URL: the check may end in a construction failure without any exchange
+                if h.script.junk_service_url && !h.log[seg.start..seg.end].iter().any(|o| matches!(o, Op::Http { .. })) {
+                    if let Some(Op::Took(EventView::Result(ResultView::Err(class)))) = seg.result_at.map(|r| &h.log[r]) {
+                        if matches!(class.as_str(), "request:http-builder" | "request:cup-decoration" | "request:json") {
+                            inp.construction_failure = Some(class.clone());
+                        }
+                    }
+                }
                 let mut expect = walk_check(&inp);
                 // a check is only judged against the model when it ran to its result (otherwise the log was cut short)
                 if seg.result_at.is_none() {
